@@ -53,24 +53,37 @@ pub enum BisimResult {
 /// Explore pairs (reference state, crate term) from (q0, e) along `char_derivative`; require
 /// `nullable == final` everywhere. Exact for all strings over the probed characters.
 pub fn bisim_term(m: &mut ReManager, atoms: &Atoms, dfa: &Dfa, q0: u32, e: RegLan, cap: usize) -> BisimResult {
+    bisim_multi(m, atoms, dfa, &[(q0, e, vec![])], cap)
+}
+
+/// same, from several roots at once; each root carries the word that led to it (for reporting)
+pub fn bisim_multi(m: &mut ReManager, atoms: &Atoms, dfa: &Dfa, roots: &[(u32, RegLan, Vec<u32>)], cap: usize) -> BisimResult {
     let mut seen: HashSet<(u32, usize)> = HashSet::new();
     let mut pred: HashMap<(u32, usize), ((u32, usize), u32)> = HashMap::new();
+    let mut root_word: HashMap<(u32, usize), Vec<u32>> = HashMap::new();
     let mut queue: VecDeque<(u32, RegLan)> = VecDeque::new();
     let mut calls = 0usize;
-    let word_to = |pred: &HashMap<(u32, usize), ((u32, usize), u32)>, mut k: (u32, usize)| -> Vec<u32> {
+    let word_to = |pred: &HashMap<(u32, usize), ((u32, usize), u32)>, root_word: &HashMap<(u32, usize), Vec<u32>>, mut k: (u32, usize)| -> Vec<u32> {
         let mut w = Vec::new();
         while let Some(&(p, c)) = pred.get(&k) {
             w.push(c);
             k = p;
         }
         w.reverse();
-        w
+        let mut full = root_word.get(&k).cloned().unwrap_or_default();
+        full.extend(w);
+        full
     };
-    if e.nullable != dfa.is_final(q0) {
-        return BisimResult::Differ { word: vec![], crate_says: e.nullable, reference_says: dfa.is_final(q0) };
+    for (q0, e, w) in roots {
+        let key = (*q0, ptr(e));
+        if e.nullable != dfa.is_final(*q0) {
+            return BisimResult::Differ { word: w.clone(), crate_says: e.nullable, reference_says: dfa.is_final(*q0) };
+        }
+        if seen.insert(key) {
+            root_word.insert(key, w.clone());
+            queue.push_back((*q0, e));
+        }
     }
-    seen.insert((q0, ptr(e)));
-    queue.push_back((q0, e));
     while let Some((q, t)) = queue.pop_front() {
         for c in probe_chars(atoms, t) {
             let q2 = dfa.step(q, atoms.atom_of(c));
@@ -82,7 +95,7 @@ pub fn bisim_term(m: &mut ReManager, atoms: &Atoms, dfa: &Dfa, q0: u32, e: RegLa
             }
             pred.insert(key, ((q, ptr(t)), c));
             if t2.nullable != dfa.is_final(q2) {
-                return BisimResult::Differ { word: word_to(&pred, key), crate_says: t2.nullable, reference_says: dfa.is_final(q2) };
+                return BisimResult::Differ { word: word_to(&pred, &root_word, key), crate_says: t2.nullable, reference_says: dfa.is_final(q2) };
             }
             if seen.len() >= cap {
                 return BisimResult::Capped;
